@@ -5,6 +5,9 @@ import Enc.Lemmas.ProtoRewriteSpecDefs
   * unfolding lemmas for the mutual `rewrite` / `rewriteMulti` / `rewriteLoop` / `rewriteAbsent`
   * `rewrite_fine`   `inp.length + fuelD r ≤ fuel → rewrite fuel r inp` is neither `.panic _` nor `.err "fuel"`
   * `rewrite_size`   `rewrite fuel r inp = .ok out → out.length ≤ sizeM r * (inp.length + 1)`
+  * `never_panics`   no panic with any fuel
+All three for EVERY `Rw` tree, including `embeddedMerge` (the merged input is bounded by the loop's input) and
+`replacement`.
 -/
 namespace Enc.Lemmas.ProtoRewriteSpec
 open Enc Enc.Model.Proto Enc.Spec.Protobuf
@@ -29,6 +32,16 @@ theorem rewrite_embedded (f number len : Nat) (rs : List (Nat × Rw)) (inp : Byt
       else .ok (encodeVarint (BitVec.ofNat 64 (number * 8 + 2)) ++ encodeVarint (BitVec.ofNat 64 body.length)
         ++ body) := by
   simp only [rewrite]
+theorem rewrite_embeddedMerge (f number len : Nat) (rs : List (Nat × Rw)) (inp : Bytes) :
+    rewrite (f + 1) (.embeddedMerge number len rs) inp =
+      (rewrite f (.message len rs) inp).bind fun body =>
+      if body.isEmpty then .ok []
+      else .ok (encodeVarint (BitVec.ofNat 64 (number * 8 + 2)) ++ encodeVarint (BitVec.ofNat 64 body.length)
+        ++ body) := by
+  simp only [rewrite]
+theorem rewrite_replacement (f : Nat) (r : Rw) (inp : Bytes) :
+    rewrite (f + 1) (.replacement r) inp = rewrite f r [] := by
+  simp only [rewrite]
 theorem rewriteMulti_zero (rs : List Rw) (inp : Bytes) : rewriteMulti 0 rs inp = .err "fuel" := by
   simp [rewriteMulti]
 theorem rewriteMulti_nil (f : Nat) (inp : Bytes) : rewriteMulti (f + 1) [] inp = .ok [] := by
@@ -48,7 +61,8 @@ def loopStep (f len : Nat) (rs : List (Nat × Rw)) (seen : List Nat) (n t : Nat)
   match (if n < len then getRw rs n else none) with
   | some r =>
     if seen.contains n then rewriteLoop f len rs m seen
-    else (rewrite f r v).bind fun a => (rewriteLoop f len rs m (n :: seen)).bind fun p => .ok (a ++ p.1, p.2)
+    else (rewrite f r (mergeInput r n t v m)).bind fun a =>
+      (rewriteLoop f len rs m (n :: seen)).bind fun p => .ok (a ++ p.1, p.2)
   | none => (rewriteLoop f len rs m seen).bind fun p => .ok (appendField n t v ++ p.1, p.2)
 
 theorem rewriteLoop_succ (f len : Nat) (rs : List (Nat × Rw)) (inp : Bytes) (seen : List Nat) :
@@ -64,7 +78,8 @@ theorem rewriteLoop_step (f len : Nat) (rs : List (Nat × Rw)) (inp : Bytes) (se
       match getRw rs n with
       | some r =>
         if seen.contains n then rewriteLoop f len rs m seen
-        else (rewrite f r v).bind fun a => (rewriteLoop f len rs m (n :: seen)).bind fun p => .ok (a ++ p.1, p.2)
+        else (rewrite f r (mergeInput r n t v m)).bind fun a =>
+          (rewriteLoop f len rs m (n :: seen)).bind fun p => .ok (a ++ p.1, p.2)
       | none => (rewriteLoop f len rs m seen).bind fun p => .ok (appendField n t v ++ p.1, p.2) := by
   have : inp.isEmpty = false := by cases inp with
     | nil => exact absurd rfl hne
@@ -129,6 +144,16 @@ theorem fine_all (fuel : Nat) :
         refine Fine.bind (ihR (.message len rs) inp (by simp only [fuelD]; omega)) ?_
         intro body _
         split <;> exact Fine.ok _
+      | embeddedMerge number len rs =>
+        rw [rewrite_embeddedMerge]
+        simp only [fuelD] at h
+        refine Fine.bind (ihR (.message len rs) inp (by simp only [fuelD]; omega)) ?_
+        intro body _
+        split <;> exact Fine.ok _
+      | replacement r =>
+        rw [rewrite_replacement]
+        simp only [fuelD] at h
+        exact ihR r [] (by simp only [List.length_nil]; omega)
     · intro rs inp h
       cases rs with
       | nil => rw [rewriteMulti_nil]; exact Fine.ok _
@@ -161,7 +186,8 @@ theorem fine_all (fuel : Nat) :
           have hD := (getRw_facts len rs n r (guard_some len rs n r ho)).2.1
           split
           · exact ihL len rs m seen (by omega)
-          · refine Fine.bind (ihR r v (by omega)) ?_
+          · have hml := mergeInput_length_le r n t v m
+            refine Fine.bind (ihR r (mergeInput r n t v m) (by omega)) ?_
             intro a _
             refine Fine.bind (ihL len rs m (n :: seen) (by omega)) ?_
             intro p _; exact Fine.ok _
@@ -223,6 +249,12 @@ theorem never_panics (fuel : Nat) :
         refine bnp _ _ e (ihR _ inp) ?_
         intro body e
         split <;> simp
+      | embeddedMerge number len rs =>
+        rw [rewrite_embeddedMerge]
+        refine bnp _ _ e (ihR _ inp) ?_
+        intro body e
+        split <;> simp
+      | replacement r => rw [rewrite_replacement]; exact ihR r [] e
     · intro rs inp e
       cases rs with
       | nil => rw [rewriteMulti_nil]; simp
@@ -275,12 +307,36 @@ theorem bind_ok_inv {α β : Type} {x : Res α} {g : α → Res β} {b : β} (h 
   | err e => simp [Res.bind] at h
   | panic e => simp [Res.bind] at h
 
+theorem ar_mono (D m L : Nat) (h : m ≤ L) : D * (m + 1) ≤ D * (L + 1) := Nat.mul_le_mul_left D (by omega)
+
+theorem ar_msg (D U S L o t : Nat) (h1 : o ≤ 20 * L + D * (L + 1)) (h2 : t ≤ U) (h3 : D + U ≤ S) :
+    o + t ≤ (20 + S) * (L + 1) := by
+  have e1 : (20 + S) * (L + 1) = 20 * (L + 1) + S * (L + 1) := Nat.add_mul _ _ _
+  have e2 : (D + U) * (L + 1) ≤ S * (L + 1) := Nat.mul_le_mul_right _ h3
+  have e3 : (D + U) * (L + 1) = D * (L + 1) + U * (L + 1) := Nat.add_mul _ _ _
+  have e4 : U ≤ U * (L + 1) := Nat.le_mul_of_pos_right _ (by omega)
+  omega
+
+theorem ar_copy (D o m L : Nat) (h1 : o ≤ 20 * m + D * (m + 1)) (h2 : m ≤ L) : o ≤ 20 * L + D * (L + 1) := by
+  have := ar_mono D m L h2
+  omega
+
+theorem ar_use (K D a o m L x : Nat) (h1 : a ≤ K * (x + 1)) (hx : x + 1 ≤ L) (h2 : o ≤ 20 * m + D * (m + 1))
+    (hm : m ≤ L) : a + o ≤ 20 * L + (D + K) * (L + 1) := by
+  have e1 := ar_mono D m L hm
+  have e2 : K * (x + 1) ≤ K * (L + 1) := Nat.mul_le_mul_left K (by omega)
+  have e3 : (D + K) * (L + 1) = D * (L + 1) + K * (L + 1) := Nat.add_mul _ _ _
+  omega
+
+/-- the loop invariant: besides the 20 bytes per input byte of copied records, the output is paid for by the templates
+used in this run (`D`), each of which sees at most the whole input (the merged input of `embddedRewriter{merge: true}`
+is no longer than the loop's input), and a template is used once (`unseenM`) -/
 theorem size_all (fuel : Nat) :
     (∀ r inp out, rewrite fuel r inp = .ok out → out.length ≤ sizeM r * (inp.length + 1)) ∧
     (∀ rs inp out, rewriteMulti fuel rs inp = .ok out → out.length ≤ sizeMList rs * (inp.length + 1)) ∧
     (∀ len rs inp seen out s, rewriteLoop fuel len rs inp seen = .ok (out, s) →
-      out.length ≤ (20 + sizeMEnts rs) * inp.length) ∧
-    (∀ rs seen out, rewriteAbsent fuel rs seen = .ok out → out.length ≤ sizeMEnts rs) := by
+      ∃ D, out.length ≤ 20 * inp.length + D * (inp.length + 1) ∧ D + unseenM rs s ≤ unseenM rs seen) ∧
+    (∀ rs seen out, rewriteAbsent fuel rs seen = .ok out → out.length ≤ unseenM rs seen) := by
   induction fuel with
   | zero =>
     refine ⟨?_, ?_, ?_, ?_⟩
@@ -290,6 +346,25 @@ theorem size_all (fuel : Nat) :
     · intro rs seen out h; rw [rewriteAbsent_zero] at h; simp at h
   | succ f ih =>
     obtain ⟨ihR, ihM, ihL, ihA⟩ := ih
+    have hemb : ∀ (number len : Nat) (rs : List (Nat × Rw)) (inp out : Bytes),
+        ((rewrite f (.message len rs) inp).bind fun body =>
+          if body.isEmpty then .ok []
+          else .ok (encodeVarint (BitVec.ofNat 64 (number * 8 + 2)) ++ encodeVarint (BitVec.ofNat 64 body.length)
+            ++ body)) = .ok out → out.length ≤ (40 + sizeMEnts rs) * (inp.length + 1) := by
+      intro number len rs inp out h
+      obtain ⟨body, hb, h⟩ := bind_ok_inv h
+      have h1 := ihR _ inp body hb
+      simp only [sizeM] at h1
+      have e40 : (40 + sizeMEnts rs) * (inp.length + 1)
+          = (20 + sizeMEnts rs) * (inp.length + 1) + 20 * (inp.length + 1) := by
+        rw [← Nat.add_mul]; congr 1; omega
+      split at h
+      · simp only [Res.ok.injEq] at h; subst h; simp
+      · simp only [Res.ok.injEq] at h; subst h
+        have a1 := encodeVarint_length_le (BitVec.ofNat 64 (number * 8 + 2))
+        have a2 := encodeVarint_length_le (BitVec.ofNat 64 body.length)
+        simp only [List.length_append]
+        omega
     refine ⟨?_, ?_, ?_, ?_⟩
     · intro r inp out h
       cases r with
@@ -307,27 +382,25 @@ theorem size_all (fuel : Nat) :
         simp only [Res.ok.injEq] at h
         subst h
         obtain ⟨o1, s⟩ := p
-        have h1 := ihL len rs inp [] o1 s hp
+        obtain ⟨D, h1, hD⟩ := ihL len rs inp [] o1 s hp
         have h2 := ihA rs s tl htl
+        rw [unseenM_nil_seen] at hD
         simp only [sizeM, List.length_append]
-        have : (20 + sizeMEnts rs) * (inp.length + 1) = (20 + sizeMEnts rs) * inp.length + (20 + sizeMEnts rs) :=
-          Nat.mul_succ _ _
-        omega
+        exact ar_msg D (unseenM rs s) (sizeMEnts rs) inp.length o1.length tl.length h1 h2 hD
       | embedded number len rs =>
         rw [rewrite_embedded] at h
-        obtain ⟨body, hb, h⟩ := bind_ok_inv h
-        have h1 := ihR _ inp body hb
-        simp only [sizeM] at h1 ⊢
-        have e40 : (40 + sizeMEnts rs) * (inp.length + 1)
-            = (20 + sizeMEnts rs) * (inp.length + 1) + 20 * (inp.length + 1) := by
-          rw [← Nat.add_mul]; congr 1; omega
-        split at h
-        · simp only [Res.ok.injEq] at h; subst h; simp
-        · simp only [Res.ok.injEq] at h; subst h
-          have a1 := encodeVarint_length_le (BitVec.ofNat 64 (number * 8 + 2))
-          have a2 := encodeVarint_length_le (BitVec.ofNat 64 body.length)
-          simp only [List.length_append]
-          omega
+        simp only [sizeM]
+        exact hemb number len rs inp out h
+      | embeddedMerge number len rs =>
+        rw [rewrite_embeddedMerge] at h
+        simp only [sizeM]
+        exact hemb number len rs inp out h
+      | replacement r =>
+        rw [rewrite_replacement] at h
+        have h1 := ihR r [] out h
+        simp only [List.length_nil, Nat.zero_add, Nat.mul_one] at h1
+        simp only [sizeM]
+        exact Nat.le_trans h1 (Nat.le_mul_of_pos_right _ (by omega))
     · intro rs inp out h
       cases rs with
       | nil =>
@@ -348,7 +421,8 @@ theorem size_all (fuel : Nat) :
       rw [rewriteLoop_succ] at h
       split at h
       · simp only [Res.ok.injEq, Prod.mk.injEq] at h
-        rw [← h.1]; simp
+        rw [← h.1, ← h.2]
+        exact ⟨0, by simp, by omega⟩
       · obtain ⟨q, hq, h⟩ := bind_ok_inv h
         obtain ⟨n, t, v, m⟩ := q
         obtain ⟨hl1, hl2⟩ := (parseField_fine inp).2 n t v m hq
@@ -359,32 +433,32 @@ theorem size_all (fuel : Nat) :
           simp only [ho] at h
           obtain ⟨p, hp, h⟩ := bind_ok_inv h
           simp only [Res.ok.injEq, Prod.mk.injEq] at h
-          rw [← h.1]
+          rw [← h.1, ← h.2]
           obtain ⟨o1, s1⟩ := p
-          have h1 := ihL len rs m seen o1 s1 hp
+          obtain ⟨D, h1, hD⟩ := ihL len rs m seen o1 s1 hp
+          refine ⟨D, ?_, hD⟩
           simp only [List.length_append]
-          refine loop_arith (20 + sizeMEnts rs) _ _ (v.length + 1) m.length inp.length ?_ h1 (by omega)
-          have : 20 * (v.length + 1) ≤ (20 + sizeMEnts rs) * (v.length + 1) :=
-            Nat.mul_le_mul_right _ (by omega)
+          have := ar_mono D m.length inp.length (by omega)
           omega
         | some r =>
           simp only [ho] at h
-          have hM := (getRw_facts len rs n r (guard_some len rs n r ho)).2.2.1
+          have hg := guard_some len rs n r ho
           split at h
-          · have h1 := ihL len rs m seen out s h
-            have : (20 + sizeMEnts rs) * m.length ≤ (20 + sizeMEnts rs) * inp.length :=
-              Nat.mul_le_mul_left _ (by omega)
-            omega
-          · obtain ⟨a, ha, h⟩ := bind_ok_inv h
+          · obtain ⟨D, h1, hD⟩ := ihL len rs m seen out s h
+            exact ⟨D, ar_copy D _ _ _ h1 (by omega), hD⟩
+          · rename_i hc
+            obtain ⟨a, ha, h⟩ := bind_ok_inv h
             obtain ⟨p, hp, h⟩ := bind_ok_inv h
             simp only [Res.ok.injEq, Prod.mk.injEq] at h
-            rw [← h.1]
+            rw [← h.1, ← h.2]
             obtain ⟨o1, s1⟩ := p
-            have h1 := ihL len rs m (n :: seen) o1 s1 hp
-            have h2 := ihR r v a ha
+            obtain ⟨D, h1, hD⟩ := ihL len rs m (n :: seen) o1 s1 hp
+            have h2 := ihR r _ a ha
+            have hml := mergeInput_length_le r n t v m
+            have huse := unseenM_use rs seen n r hg (by simpa using hc)
+            refine ⟨D + sizeM r, ?_, by show D + sizeM r + unseenM rs s1 ≤ unseenM rs seen; omega⟩
             simp only [List.length_append]
-            refine loop_arith (20 + sizeMEnts rs) _ _ (v.length + 1) m.length inp.length ?_ h1 (by omega)
-            exact Nat.le_trans h2 (Nat.mul_le_mul_right _ (by omega))
+            exact ar_use (sizeM r) D _ _ m.length inp.length _ h2 (by omega) h1 (by omega)
     · intro rs seen out h
       cases rs with
       | nil =>
@@ -394,17 +468,20 @@ theorem size_all (fuel : Nat) :
       | cons p rs =>
         obtain ⟨i, r⟩ := p
         rw [rewriteAbsent_cons] at h
-        simp only [sizeMEnts]
+        simp only [unseenM]
         split at h
-        · have := ihA rs seen out h; omega
-        · obtain ⟨a, ha, h⟩ := bind_ok_inv h
+        · rename_i hc
+          have := ihA rs seen out h
+          simp only [hc, if_true]; omega
+        · rename_i hc
+          obtain ⟨a, ha, h⟩ := bind_ok_inv h
           obtain ⟨b, hb, h⟩ := bind_ok_inv h
           simp only [Res.ok.injEq] at h
           subst h
           have h1 := ihR r [] a ha
           have h2 := ihA rs seen b hb
           simp only [List.length_nil, Nat.zero_add, Nat.mul_one] at h1
-          simp only [List.length_append]
+          simp only [List.length_append, hc, Bool.false_eq_true, if_false]
           omega
 
 /-- **size of the output**, for every rewriter and every input -/
